@@ -41,12 +41,28 @@ def run(c):
         if n % 3 == 0:
             cases.append({"id": len(cases), "fault": "none", "sync": "ok", "userns": False, "files_n": n})
     cases.append({"id": len(cases), "fault": "ptrace_runner"})
+    # the launching process is killed while the callback runs (theorem C07_launcher_death)
+    for k in range(4 if c.quick() else 24):
+        cases.append({"id": len(cases), "fault": "launcher_death", "userns": k % 2 == 1, "delay_ms": [0, 1, 5, 30][k % 4] if k < 4 else c.rng.randrange(0, 60)})
     obs = c.run_harness(exe, cases, env=env, timeout=900)
     items, idx, dis = [], [], []
+    ditems, didx = [], []
     for x, o in zip(cases, obs):
         if "harness_err" in o:
             raise RuntimeError(o["harness_err"])
         fault = x["fault"]
+        if fault == "launcher_death":
+            c.count(("launcher_death", x["userns"]), nontrivial=True, klass="launcher-death")
+            canon = lambda what, **kw: dict({"kind": "launcher-death", "what": what, "userns": x["userns"]}, **kw)
+            if o["target_ran"]:
+                c.finding_or_violation(canon("the target ran although the launcher died before approving"), {"case": x, "observed": o})
+            if not o["exited"]:
+                c.finding_or_violation(canon("the child was left waiting on the socket after the launcher died"), {"case": x, "observed": o})
+            if not o.get("blocked_in_launcher_image"):
+                c.finding_or_violation(canon("at the callback the pid is not the not yet exec'ed child"), {"case": x, "observed": o})
+            ditems.append("(%s, true, %s, %s)" % (coq_bool(x["userns"]), coq_bool(o["target_ran"]), coq_bool(o["exited"])))
+            didx.append(x["id"])
+            continue
         if fault == "ptrace_runner":
             c.count("ptrace_runner", klass="ptrace-runner")
             if o["status"] == 8 and "chdir" not in o["errmsg"]:
@@ -104,8 +120,13 @@ def run(c):
                                                 coq_bool(o["target_ran"]), coq_bool(cb["called"])))
         idx.append(x["id"])
     body = HDR + "Definition cs := %s.\nDefinition M := Eval vm_compute in failing outcome_ok cs.\nPrint M.\n" % coq_list(items)
-    for i in c.parse_nums(c.parse_printed(c.coq_eval("sync", body, timeout=900), "M").replace("%N", "")):
+    body += "Definition ds : list (bool * bool * bool * bool) := %s.\nDefinition D := Eval vm_compute in failing death_ok ds.\nPrint D.\n" % coq_list(ditems)
+    printed = c.coq_eval("sync", body, timeout=900)
+    for i in c.parse_nums(c.parse_printed(printed, "M").replace("%N", "")):
         dis.append({"relation": "outcome_ok (observed launch outcome is a terminal outcome of the sync LTS)", "case": cases[idx[i]], "observed": obs[idx[i]]})
+    for i in c.parse_nums(c.parse_printed(printed, "D").replace("%N", "")):
+        dis.append({"relation": "death_ok (observed end after the launcher's death is an end of the sync LTS with the parent crashed)",
+                    "case": cases[didx[i]], "observed": obs[didx[i]]})
     c.sample({"case": cases[1], "observed": obs[1]})
     c.sample({"case": cases[-2], "observed": obs[-2]})
     c.cov["launches"] = len(cases)
